@@ -407,11 +407,16 @@ Proof.
       injection H as <- _; auto.
 Qed.
 Lemma schedule_new_tasks_frame st st' r : schedule_new_tasks prm o st = (st', r) ->
-  s_sstopped st' = s_sstopped st /\ s_nw st' = s_nw st /\ s_nc st' = s_nc st /\ exists new, s_trace st' = new ++ s_trace st.
+  s_sstopped st' = s_sstopped st /\ s_nw st <= s_nw st' /\ s_nc st' = s_nc st /\ exists new, s_trace st' = new ++ s_trace st.
 Proof.
-  unfold schedule_new_tasks. destruct (Nat.leb _ _).
-  - intro H; injection H as <- _. simpl. repeat split; auto. exists [ECbSleep]. reflexivity.
-  - intro H. apply schedule_k_frame in H. destruct H as (A & B & C & (new & D & _)). repeat split; auto. exists new. exact D.
+  intro H. apply schedule_new_tasks_cases in H. destruct H as (st1 & Hbl & Hc).
+  assert (E1 : s_sstopped st1 = s_sstopped st /\ s_nw st <= s_nw st1 /\ s_nc st1 = s_nc st /\ exists new, s_trace st1 = new ++ s_trace st).
+  { destruct Hbl as [->|[busy Hb]]; [repeat split; auto; exists []; reflexivity|]. apply busy_look_spec in Hb.
+    destruct Hb as (_ & _ & Ht & _ & R5 & _ & _ & _ & _ & _ & Hnw & Hnc). repeat split; auto. exists [EBBusy busy]. exact Ht. }
+  destruct E1 as (A1 & B1 & C1 & (n1 & D1)). destruct Hc as [[-> ->]|(k & _ & Hk)].
+  - simpl. repeat split; auto. exists (ECbSleep :: n1). rewrite D1. reflexivity.
+  - apply schedule_k_frame in Hk. destruct Hk as (A & B & C & (n2 & D & _)).
+    repeat split; try congruence; try lia. exists (n2 ++ n1). rewrite D, D1, app_assoc. reflexivity.
 Qed.
 Lemma Tinv_frame st st' : s_sstopped st' = s_sstopped st -> (exists new, s_trace st' = new ++ s_trace st) -> Tinv st -> Tinv st'.
 Proof. intros Hs [new Ht] HT. eapply Tinv_ext; [|exact HT]. eapply sst_ext_same; eauto. Qed.
